@@ -71,6 +71,11 @@ CLAIMED = {
    text="The C01 operand pairs under generated similarities (exact quarter turns, rational factors 1e-3..1e5 and translations for rational polygons - all judged; arbitrary angles, log-uniform factors and translations up to 1e5/1e6 for float and curved): membership of T(p) in T(A) op T(B) against the model, kind of the result with and without T, area scaling, invariance of containment.",
    note="Trusted: reference membership and witness subset oracle. Float/curved configurations that are well conditioned as drawn but fall below the absolute conditioning thresholds after T are the open finding KF-C12-abs-tolerance (D16): excluded by an input predicate, counted, pinned replay is the property text's circle/square example.",
    ref="4/C12"),
+ "C07": dict(
+   technique="property-based testing (Hypothesis): families of representations equal by construction and of shapes different by construction; == / != checked for truth, bool type, reflexivity, symmetry, transitivity",
+   text="For generated shapes of every kind: rotated start vertices, inserted collinear vertices, curved segments split where the model says no piece is degree-reduced, int/Fraction/float renderings, permuted components/holes, copies (must all be ==), and moved vertex / reversed orientation / translated hole or component of equal area / other kind (must be !=); also on the boundary JordanCurves including mixed degrees.",
+   note="Trusted: the construction itself (truth known by construction; spec validity of moved holes/components decided exactly by the reference).",
+   ref="4/C07"),
 }
 NOT_YET = "check not built yet in this round (planned, see DESIGN.md section 4); nothing is claimed for it"
 
